@@ -313,12 +313,18 @@ def splitTop : List Char → Nat → List Char → Option (List (List Char))
     else if c = ',' ∧ level = 0 then (splitTop cs level []).map (cur.reverse :: ·)
     else splitTop cs level (c :: cur)
 
-/-- `int(label)` / `labels.index(label)`; both raise `ValueError` (a negative index too). -/
+/-- `int(label)` / `labels.index(label)`; both raise `ValueError` (a negative index too;
+`int("-0")` is 0). -/
 def labelIndex (labels : Option (List (List Char))) (l : List Char) : Except Err Nat :=
   match labels with
-  | none => match (String.ofList l).toInt? with      -- `int("-0")` is 0; a negative index is refused
-    | some z => if z < 0 then .error .valueError else .ok z.toNat
-    | none => .error .valueError
+  | none =>
+    match l with
+    | '-' :: r => match (String.ofList r).toNat? with
+      | some 0 => .ok 0
+      | _ => .error .valueError
+    | _ => match (String.ofList l).toNat? with
+      | some i => .ok i
+      | none => .error .valueError
   | some ls => match ls.findIdx? (· = l) with
     | some i => .ok i
     | none => .error .valueError
